@@ -526,6 +526,15 @@ func childMain(specPath, outPath string) {
 	os.MkdirAll(filepath.Join(scratch, "db"), 0o755)
 	storage.SetDataDir(filepath.Join(scratch, "db"))
 	ch := &countChannel{}
+	if sp.Sweep != nil && sp.Sweep.Svc == "deploy" {
+		var res ChildResult
+		runDeploy(sp, scratch, &res, func() {
+			jb, _ := json.Marshal(res)
+			ioutil.WriteFile(outPath, jb, 0o644)
+		})
+		os.RemoveAll(scratch)
+		os.Exit(0)
+	}
 	var svc services.Servicer
 	if sp.Sweep != nil {
 		svc = buildSweepService(sp.Sweep.Svc, scratch, ch)
